@@ -341,3 +341,69 @@ func VerifH_C13_PatternDefaults() {
 		vrt.Assert(leaf.Type().Validate(c13Ctx{}, []string{"x"}, got) == nil, "c13.patterndefaults.default-is-accepted-by-the-final-type")
 	}
 }
+
+// VerifH_C13_SharedText: the SAME restriction text with a keyword bound ("2..max",
+// "min..4") derived from two typedefs with different bounds in one compile; each
+// derived type must resolve the keyword against its own base.
+func VerifH_C13_SharedText() {
+	isLength := vrt.Bool("length")
+	upper := vrt.Bool("keyword-is-max") // "2..max" or "min..4"
+	digit := func(tag string, lo, hi byte) (string, int64) {
+		d := vrt.Byte(tag)
+		vrt.Assume(vrt.And(d >= lo, d <= hi))
+		return string([]byte{d}), int64(d - '0')
+	}
+	var b1t, b2t string
+	var b1, b2 int64
+	kw, typ := "range", "int32"
+	if isLength {
+		kw, typ = "length", "string"
+	}
+	var base1, base2, derived string
+	var lo1, hi1, lo2, hi2 int64
+	if upper {
+		b1t, b1 = digit("b1", '4', '9')
+		b2t, b2 = digit("b2", '4', '9')
+		base1, base2, derived = "1.."+b1t, "1.."+b2t, "2..max"
+		lo1, hi1, lo2, hi2 = 2, b1, 2, b2
+	} else {
+		b1t, b1 = digit("b1", '0', '3')
+		b2t, b2 = digit("b2", '0', '3')
+		base1, base2, derived = b1t+"..8", b2t+"..8", "min..4"
+		lo1, hi1, lo2, hi2 = b1, 4, b2, 4
+	}
+	first, second := "x", "y"
+	if vrt.Bool("y-first") {
+		first, second = "y", "x"
+	}
+	leafOf := func(n string) string {
+		t := "t1"
+		if n == "y" {
+			t = "t2"
+		}
+		return "leaf " + n + " { type " + t + " { " + kw + " '" + derived + "'; } } "
+	}
+	text := "module m { namespace 'urn:m'; prefix m; " +
+		"typedef t1 { type " + typ + " { " + kw + " '" + base1 + "'; } } " +
+		"typedef t2 { type " + typ + " { " + kw + " '" + base2 + "'; } } " +
+		leafOf(first) + leafOf(second) + "}"
+	vrt.Reach("c13.sharedtext." + kw)
+	ms, err := compileTexts(map[string]string{"m": text}, featSet{}, nil)
+	if err != nil {
+		vrt.Observe("verdict", text, err.Error())
+	}
+	vrt.Assert(err == nil, "c13.sharedtext.compiles")
+	if err != nil {
+		return
+	}
+	p := vrt.Choice("probe", 10)
+	probe := strconv.Itoa(p)
+	if isLength {
+		probe = "xxxxxxxxx"[:p]
+	}
+	pv := int64(p)
+	ex := ms.Child("x").(schema.Leaf).Type().Validate(c13Ctx{}, []string{"x"}, probe)
+	ey := ms.Child("y").(schema.Leaf).Type().Validate(c13Ctx{}, []string{"y"}, probe)
+	vrt.Assert(vrt.Iff(ex == nil, vrt.And(pv >= lo1, pv <= hi1)), "c13.sharedtext.first-base-bounds")
+	vrt.Assert(vrt.Iff(ey == nil, vrt.And(pv >= lo2, pv <= hi2)), "c13.sharedtext.second-base-bounds")
+}
